@@ -25,6 +25,27 @@ GRAPH = dict(BASE, **{
 })
 # smaller graph universe for exhaustive runs of the quick tier
 GRAPH_Q = dict(GRAPH, **{"GNodes": "<- c_GNodes2", "Ps": "<- c_Ps1", "Ids": "<- c_Ids1"})
+# histories that start from an index already holding vectors a and b (no KV): three further operations reach
+# "snapshot; delete; re-add" and similar patterns that need six operations from the empty state
+SEEDED_BASE = dict(BASE, **{"Seeded": "TRUE", "Keys": "<- c_Empty", "KVals": "<- c_Empty", "MaxFile": 7, "MaxRej": 0})
+ADMIN_OPS = ("SaveSnapshot", "RewriteAOF", "VCompress")
+PASSIVE_OPS = ADMIN_OPS + ("Refine", "Vacuum", "Reopen")
+
+
+def admin_then_write(ops):
+    names = [o.get("op") for o in ops[3:]]
+    for i, nm in enumerate(names):
+        if nm in ADMIN_OPS and any(x not in PASSIVE_OPS for x in names[i + 1:]):
+            return True
+    return False
+
+
+# three ids, no configuration variety: "delete two, batch-add two" next to a third live id exercises the
+# id reservation of the batch path (reachable with efConstruction = 2 in harness variant 1)
+SEEDED_IDS3 = dict(SEEDED_BASE, **{"Ids": "<- c_Ids3", "MaxCtr": 6, "MaxFile": 8, "Cfgs": "<- c_CfgsB", "Maints": "<- c_Empty",
+                                   "ALs": "<- c_Empty", "Targets": "<- c_Empty", "MVals": "<- c_MVals1"})
+
+
 # C12: behaviours start from an index holding vectors a and b, so deletes are reachable within short histories
 SEEDED = dict(GRAPH, **{"Seeded": "TRUE", "Ps": "<- c_Ps1", "Ws": "<- c_Ws1", "Maints": "<- c_Empty"})
 
@@ -197,6 +218,23 @@ def run(prop, tier):
         for i, b in enumerate(b2):
             b["id"] = "w%d" % i
         plans.append((base, b1 + b2))
+    if use_base:
+        # seeded histories: persistence procedure followed by writes (C01), everything (C04), rejected calls (C05)
+        sb = dict(SEEDED_BASE, MaxOps=3 if quick else 4, MaxRej=1 if prop == "C05" else 0)
+        cbs = corpus(chk, "MC_Kektor_seeded_base_corpus", sb, workers=8, timeout=3000)
+        pick = {"C01": admin_then_write, "C04": lambda ops: len(ops) > 4, "C05": need}[prop]
+        b3, _ = vlib.behaviours_from_corpus(cbs, max_behaviours=350 if quick else 20000, rng=rng, need=pick)
+        for i, b in enumerate(b3):
+            b["id"] = "sb%d" % i
+        plans.append((sb, b3))
+    if prop == "C04":
+        s3 = dict(SEEDED_IDS3, MaxOps=3 if quick else 4)
+        c3 = corpus(chk, "MC_Kektor_seeded_ids3_corpus", s3, workers=8, timeout=3000)
+        b4, _ = vlib.behaviours_from_corpus(c3, max_behaviours=300 if quick else 20000, rng=rng,
+                                            need=lambda ops: any(o.get("op") == "VAddBatch" and o.get("res") == "ok" for o in ops[4:]))
+        for i, b in enumerate(b4):
+            b["id"] = "s3_%d" % i
+        plans.append((s3, b4))
     if use_graph:
         if quick:
             model_check(chk, "MC_Kektor_graph", dict(GRAPH_Q, MaxOps=3), timeout=900)
@@ -235,6 +273,8 @@ def run(prop, tier):
         chk.infra.append("no non-trivial behaviour in the corpus")
     # 3. binding: replay on the real engine
     variants = (vlib.seed() % 3,) if quick else (0, 1, 2)
+    if prop == "C04" and quick:
+        variants = (1,)     # efConstruction 2: both insertion paths of AddBatch are exercised
     for consts, behaviours in plans:
         results = replay(chk, consts, behaviours, variants=variants)
         judge(chk, prop, consts, behaviours, results)
